@@ -20,7 +20,7 @@ func VerifHarness_C06_glob() {
 	n := 1 + rt.Choice("len", 3)
 	bb := rt.Bytes("base", n)
 	for _, c := range bb {
-		rt.Assume(rt.OneOf(c, "a -[]*?\\"))
+		rt.Assume(rt.OneOf(c, "aA -[]*?\\"))
 	}
 	base := string(bb)
 	vol := base + ".vol0+1.par2"
